@@ -14,7 +14,7 @@ from typing import Any
 
 VERIF = Path(__file__).resolve().parent.parent
 EVIDENCE_DIR = VERIF / "evidence"
-REPLAY_DIR = VERIF / "replay"
+REPLAY_DIR = Path(os.environ.get("PDELINT_REPLAY_DIR", VERIF / "replay"))
 KNOWN_FILE = VERIF / "known_findings.json"
 
 EXIT_OK, EXIT_VIOLATION, EXIT_ANALYSIS = 0, 1, 2
@@ -121,7 +121,7 @@ class Report:
         for f in matched:
             print(f"KNOWN-FINDING: property={self.pid} {known_keys[f.key]['what']} [{f.key}]")
         rc = EXIT_OK
-        REPLAY_DIR.mkdir(exist_ok=True)
+        REPLAY_DIR.mkdir(parents=True, exist_ok=True)
         for f in unknown:
             digest = hashlib.sha1(f.key.encode()).hexdigest()[:12]
             path = REPLAY_DIR / f"{self.pid}-{digest}.json"
@@ -189,6 +189,8 @@ class Report:
             "wall_s": round(time.time() - self.t0, 3),
             "violations": n_viol,
         }
+        if os.environ.get("PDELINT_NO_EVIDENCE"):
+            return
         EVIDENCE_DIR.mkdir(exist_ok=True)
         (EVIDENCE_DIR / f"{self.pid}.json").write_text(json.dumps(ev, indent=1, ensure_ascii=False) + "\n")
 
